@@ -26,7 +26,11 @@ def report_core_disagreements(ctx, cases, dis, in_scope=lambda case, d: True, kn
                "implementation": d.get("go"), "model": d.get("model"), "detail": d.get("detail")}
         k = known(case, d) if case else None
         if k:
-            ctx.known_finding(k)
+            # these findings belong to C09 ("never crashes"); elsewhere the input is simply outside the quantifier
+            if ctx.pid == "C09":
+                ctx.known_finding(k)
+            else:
+                ctx.coverage["skipped_inputs_of_known_C09_findings"] = ctx.coverage.get("skipped_inputs_of_known_C09_findings", 0) + 1
             continue
         if d["layer"] in ("DRIVER",):
             ctx.corr_break(d["layer"], rep)
